@@ -40,7 +40,11 @@ func (r *rec) emit(kind, op, answer string) {
 	fmt.Fprintf(r.ops, "%d %s\n", r.seq, op)
 	fmt.Fprintf(r.impl, "%d %s\n", r.seq, answer)
 	r.kinds[kind]++
-	r.distinct[kind+"\x00"+answer] = struct{}{}
+	if kind == "scenario" {
+		r.distinct[op] = struct{}{} // scenarios differ by their parameters, not by their answer
+	} else {
+		r.distinct[kind+"\x00"+answer] = struct{}{}
+	}
 	if len(r.samples) < 12 && r.kinds[kind] <= 2 {
 		s := op
 		if len(s) > 160 {
@@ -62,6 +66,8 @@ func (r *rec) finish(dir string, extra map[string]interface{}) {
 }
 
 var cleanups []func()
+
+func jsonMarshal(v interface{}) ([]byte, error) { return json.Marshal(v) }
 
 func check(err error) {
 	if err != nil {
@@ -141,6 +147,8 @@ func main() {
 		runInject(r, g, *tier, *what, *replay, *out, extra)
 	case "live":
 		runLive(r, g, *tier, *what, *replay, *out, extra)
+	case "conc":
+		runConc(r, g, *tier, *what, *out, extra)
 	default:
 		fmt.Fprintln(os.Stderr, "unknown command", cmd)
 		os.Exit(2)
